@@ -32,7 +32,7 @@ CLAIMED['C05'] = dict(
     text='Theorems over ALL chunkings and ALL histories of feed/feed_byte/get_message/pending/iteration: chunked feeding reaches the same '
          'parser state as feeding at once; retrieved ++ queued == parse_all(everything fed) (FIFO, nothing lost or duplicated); pending/get '
          'contracts; ParserQueue histories reduce to Parser histories. Correspondence compares real Parser/ParserQueue step by step.',
-    note='Coq kernel; no axioms; live-generator aliasing (feeding while an iterator is open) not modelled; ParserQueue put() covered by correspondence only.',
+    note='Coq kernel; no axioms; one iterator kept alive across other calls is modelled (C05_live_iterator), several at once are not; ParserQueue put() covered by correspondence only.',
     technique='Coq proof (induction over operation histories) + model/implementation correspondence', design='5/C05')
 CLAIMED['C06'] = dict(
     text='Theorems: for ANY byte prefix P and ANY valid message M, parse_all(P ++ enc M) = parse_all(P) ++ [M]; any concatenation of encodings '
